@@ -15,7 +15,7 @@ pub const FOLD_TYPES: &[u16] = &[2, 3, 4, 5, 6, 7, 8, 9, 12, 14, 15, 17, 18, 21,
 
 /// (start, end, is_name) of each field of `raw` according to the schema of `rtype`.
 /// Names must be uncompressed.
-fn name_spans(rtype: u16, raw: &[u8]) -> Result<Vec<(usize, usize)>, String> {
+pub fn name_spans(rtype: u16, raw: &[u8]) -> Result<Vec<(usize, usize)>, String> {
     // RFC 4034 §6.2-listed types that have no schema in the shared generator table
     let extra: Option<&[F]> = match rtype {
         39 | 3 | 4 | 7 | 8 | 9 => Some(&[F::NameNC]),  // DNAME, MD, MF, MB, MG, MR
@@ -243,6 +243,8 @@ pub enum RefKey {
     Rsa(RsaKeyPair, u8, Vec<u8>),
 }
 
+pub const ALG_RSASHA1: u8 = 5;
+pub const ALG_RSASHA1_NSEC3: u8 = 7;
 pub const ALG_RSASHA256: u8 = 8;
 pub const ALG_RSASHA512: u8 = 10;
 pub const ALG_P256: u8 = 13;
@@ -332,7 +334,7 @@ pub fn verify(algorithm: u8, dnskey_public: &[u8], data: &[u8], sig: &[u8]) -> b
                 if algorithm == ALG_P256 { &signature::ECDSA_P256_SHA256_FIXED } else { &signature::ECDSA_P384_SHA384_FIXED };
             signature::UnparsedPublicKey::new(alg, &pk).verify(data, sig).is_ok()
         }
-        ALG_RSASHA256 | ALG_RSASHA512 => {
+        ALG_RSASHA1 | ALG_RSASHA1_NSEC3 | ALG_RSASHA256 | ALG_RSASHA512 => {
             if dnskey_public.is_empty() {
                 return false;
             }
@@ -349,7 +351,13 @@ pub fn verify(algorithm: u8, dnskey_public: &[u8], data: &[u8], sig: &[u8]) -> b
             }
             let e = &dnskey_public[off..off + elen];
             let n = &dnskey_public[off + elen..];
-            let params = if algorithm == ALG_RSASHA512 { &signature::RSA_PKCS1_1024_8192_SHA512_FOR_LEGACY_USE_ONLY } else { &signature::RSA_PKCS1_1024_8192_SHA256_FOR_LEGACY_USE_ONLY };
+            // RFC 3110 (5), RFC 5155 §2 (7 = same scheme as 5), RFC 5702 (8, 10): PKCS#1 v1.5;
+            // the legacy parameter sets accept moduli from 1024 bits
+            let params = match algorithm {
+                ALG_RSASHA512 => &signature::RSA_PKCS1_1024_8192_SHA512_FOR_LEGACY_USE_ONLY,
+                ALG_RSASHA256 => &signature::RSA_PKCS1_1024_8192_SHA256_FOR_LEGACY_USE_ONLY,
+                _ => &signature::RSA_PKCS1_1024_8192_SHA1_FOR_LEGACY_USE_ONLY,
+            };
             signature::RsaPublicKeyComponents { n, e }.verify(params, data, sig).is_ok()
         }
         _ => false,
